@@ -52,8 +52,12 @@ STMTS = [
     ("print *, \"don't\"; call s(x)", {"s"}),
     ("print *, \"don't panic\"; y = len('usage: run; call p(x)')", set()),
     ("print *, 'a 3\" pipe'; x = f(y)", {"f"}),
+    ("print *, 'a long literal comes first' // 'call s(f(1))'", set()),
+    ("print *, \"value of the function\", ' f(2) ', x", set()),
+    ("x = extf(y)", {"extf"}),
+    ("x = extg(y) + extf(x)", {"extf", "extg"}),
 ]
-USER = {"f", "g", "h", "p", "s", "reset", "emit", "level"}
+USER = {"f", "g", "h", "p", "s", "reset", "emit", "level", "extf", "extg"}
 
 
 def program(stmts):
@@ -73,8 +77,10 @@ def program(stmts):
     funcs += "  subroutine emit(self, v)\n    class(logger) :: self\n    real :: v\n  end subroutine emit\n"
     funcs += "  function level(self, k) result(r)\n    class(logger) :: self\n    integer :: k\n    real :: r\n    r = 0.0\n  end function level\n"
     return ("module m\n  implicit none\n" + types + "contains\n" + funcs +
-            "  subroutine driver()\n    real :: x, y, a(10), b(3,3)\n    real, allocatable :: c(:)\n    integer :: i, j, n\n    type(application) :: app\n" + body +
-            "\n  end subroutine driver\nend module m\n")
+            "  subroutine driver()\n    real :: x, y, a(10), b(3,3)\n    real, allocatable :: c(:)\n    integer :: i, j, n\n    type(application) :: app\n"
+            "    REAL, EXTERNAL :: extf\n    real, external :: extg\n" + body +
+            "\n  end subroutine driver\nend module m\n"
+            "function extf(v) result(r)\n  real :: v, r\n  r = v\nend function extf\nfunction extg(v) result(r)\n  real :: v, r\n  r = v\nend function extg\n")
 
 
 def cases():
